@@ -257,7 +257,6 @@ impl Run {
                 .wasm_sudo(t.clone(), &RawOp::RawSet { key: Binary::from(b"contract_info".to_vec()), value: Binary::from(serde_json::to_vec(&ver).unwrap()) })
                 .unwrap();
         }
-        let mut anom0: Vec<String> = vec![];
         if let Some((_, f)) = &fx {
             if names_of(&run.w) != f["names"] {
                 eprintln!("fixtures/cw20.ndjson was recorded with other addresses: regenerate it (tools/mkfixtures.sh)");
@@ -268,14 +267,10 @@ impl Run {
             run.w.set_clock(n(&f["now"], "h"), n(&f["now"], "t"));
             cfgv["expect"] = f["obs"].clone();
         }
+        // (that the observation equals the recorded one is the formula UpgradeKeepsState, checked by TLC)
         let obs = run.observe();
-        if let Some((_, f)) = &fx {
-            if obs != f["obs"] {
-                anom0.push("the state read from storage written by the release differs from what the release reported".into());
-            }
-        }
         let mut anom = run.sc.take_anomalies();
-        anom.extend(anom0);
+
         out.emit(&json!({"act":"reset","sys":"cw20","run":run_no,"cfg":cfgv,"ok":true,"panic":false,"err":"",
             "now":run.w.now(),"out":[],"anom":anom,"obs":obs}));
         Some(run)
